@@ -22,8 +22,8 @@ MT_STEPS = ["InitFlag", "Spawn", "CtorReturn", "SetActive", "FuncStart", "FuncEn
 
 def behaviours(edges, limit, rng):
     """All maximal behaviours (paths from an initial node to a node without successor) of the acyclic graph
-    printed by TLC, as lists of action-json strings; a uniform sample of `limit` of them (plus a cover of
-    every edge) if there are more.  Returns (paths, total number of maximal behaviours)."""
+    printed by TLC, as lists of action-json strings; a seeded uniform sample of `limit` distinct ones
+    if there are more.  Returns (paths, total number of maximal behaviours)."""
     succ, inits = {}, set()
     for pre, a, post, is_init in sorted(set(edges)):
         if is_init:                     # field i: the edge leaves an initial state
@@ -72,9 +72,8 @@ def behaviours(edges, limit, rng):
             walk(i, [])
     else:
         seen = set()
-        uncovered = set((u, k) for u in succ for k in range(len(succ[u])))
 
-        def sample(force=None):
+        def sample():
             # uniform over maximal behaviours: choose successors proportionally to the number of completions
             r = rng.randrange(total)
             u = None
@@ -90,7 +89,6 @@ def behaviours(edges, limit, rng):
                     if r < count[v]:
                         break
                     r -= count[v]
-                uncovered.discard((u, k))
                 acc.append(a)
                 u = v
             return acc
